@@ -431,3 +431,131 @@ Definition through (w : stream -> stream) (sc : scen) : scen :=
 Definition with_progress (sc : scen) : scen := through (fun s => fst (indicator s)) sc.
 Definition with_swallowing_progress (sc : scen) : scen :=
   through (fun s => fst (indicator_return_in_finally (length (input sc)) s)) sc.
+
+(* ---------- the pre-existing state of the cache path, concretely ----------
+   `target` says of a directory only whether it holds unrelated content, which catalog data and whether
+   patch_ids.bin is there.  What a directory really is, is a listing.  "Is a catalog cache" is a statement about
+   that listing: it is a real directory and patch_ids.bin - the file CatalogWriter.finalize writes last and
+   read_patch_ids asks for - is in it.  Nothing else counts: not the names of the other entries (user files called
+   patch_notes.txt, left-over patch_3/ directories of an interrupted creation), not their number (an empty
+   directory is not a cache), not what lies deeper (a catalog in a sub-directory). *)
+Inductive entry :=
+| EMarker                     (* patch_ids.bin *)
+| EPatch (c : nat)            (* a patch directory patch_<k> holding catalog data (chunk label c) *)
+| EPatchNamed                 (* any other entry whose name starts with "patch_": patch_notes.txt, an empty patch_3/,
+                                 a sub-directory patch_0/ that is itself a catalog *)
+| EOther.                     (* any other entry *)
+Inductive fspath :=
+| FAbsent | FNoParent | FFile
+| FDir (es : list entry)
+| FLink (to : fspath).        (* a symbolic link; FLink FAbsent is a dangling one *)
+
+Definition is_marker (e : entry) : bool := match e with EMarker => true | _ => false end.
+Definition has_marker (es : list entry) : bool := existsb is_marker es.
+Definition foreign (e : entry) : bool := match e with EPatchNamed | EOther => true | _ => false end.
+Definition patch_named (e : entry) : bool := match e with EOther => false | _ => true end.   (* patch_ids.bin too *)
+Fixpoint chunks_of (es : list entry) : list nat :=
+  match es with [] => [] | EPatch c :: r => c :: chunks_of r | _ :: r => chunks_of r end.
+
+Definition is_cache (p : fspath) : bool := match p with FDir es => has_marker es | _ => false end.
+
+(* a guard is the test CatalogWriter.__init__ applies to an existing directory before rmtree.  The abstract state of
+   a listing as the pipeline with guard g sees it: the bit `ids` of `target` is what decides in init_dir. *)
+Definition guard := list entry -> bool.
+Definition guard_marker : guard := has_marker.
+(* "the marker, or the remains of an interrupted creation: every entry is called patch_..." *)
+Definition guard_names : guard := fun es => has_marker es || forallb patch_named es.
+Definition abs_dir (g : guard) (es : list entry) : target := TDir (existsb foreign es) (chunks_of es) (g es).
+(* Catalog(path) on a listing: the marker and the patch data it lists (a marker alone does not open) *)
+Definition dir_opens (es : list entry) : bool :=
+  has_marker es && match chunks_of es with [] => false | _ => true end.
+
+(* a reading of a concrete path: the abstract state, whether the pipeline is in a position to overwrite it, and
+   whether it opens as a catalog before the call *)
+Definition reading := (target * bool * bool)%type.
+Fixpoint resolve (p : fspath) : fspath := match p with FLink q => resolve q | _ => p end.
+Definition plain_reading (g : guard) (p : fspath) (ow : bool) : reading :=
+  match p with
+  | FAbsent => (TAbsent, ow, false)
+  | FNoParent => (TNoParent, ow, false)
+  | FFile | FLink _ => (TFile, ow, false)
+  | FDir es => (abs_dir g es, ow, dir_opens es)
+  end.
+(* the code: exists / is_dir / the marker test look through a symbolic link, rmtree refuses one and mkdir does not
+   create through one.  So a link to anything that exists is an existing path that cannot be overwritten, a
+   dangling link is a location that cannot be used. *)
+Definition code_reading (g : guard) (p : fspath) (ow : bool) : reading :=
+  match p with
+  | FLink q => match resolve q with
+               | FAbsent | FNoParent => (TNoParent, ow, false)
+               | r => let '(t, _, o) := plain_reading g r ow in (t, false, o)
+               end
+  | _ => plain_reading g p ow
+  end.
+(* the other reading the statement admits (it does not say whether a link is followed): the path is what the
+   link points to *)
+Definition follow_reading (g : guard) (p : fspath) (ow : bool) : reading := plain_reading g (resolve p) ow.
+
+Definition r_pre (r : reading) : target := fst (fst r).
+Definition r_ow (r : reading) : bool := snd (fst r).
+Definition r_opens (r : reading) : bool := snd r.
+Definition with_reading (sc : scen) (r : reading) : scen :=
+  {| input := input sc; flt := flt sc; pre := r_pre r; overwrite := r_ow r; early := early sc;
+     empty_centre := empty_centre sc |}.
+(* the scenario of a call on a concrete path as the pipeline with guard g executes it; judged is always the
+   scenario under guard_marker *)
+Definition on_path (g : guard) (sc : scen) (p : fspath) : scen := with_reading sc (code_reading g p (overwrite sc)).
+
+(* a directory that carries the marker without the data it lists does not open while it is as it was *)
+Definition openable_p (po : bool) (sc : scen) (d : target) : bool :=
+  openable d && (po || negb (target_eqb d (pre sc))).
+Definition held_of_p (po : bool) (sc : scen) (d : target) : held :=
+  if negb (openable_p po sc d) then HClosed
+  else if target_eqb d (pre sc) then HPre
+  else match d with
+       | TDir _ r _ => if nlist_eqb r (input sc) then HNew else HOther
+       | _ => HOther
+       end.
+Definition agree_p (v : impl) (par : bool) (sc : scen) (po : bool) (ob : obs) (untouched opens : bool) : bool :=
+  match (if par then par_all v sc else Some (seq_run v sc)) with
+  | Some (o, d) => obs_eqb (model_obs sc o) ob
+                   && Bool.eqb (target_eqb d (pre sc)) untouched
+                   && Bool.eqb (openable_p po sc d) opens
+  | None => false
+  end.
+Definition agree_held_p (v : impl) (par : bool) (sc : scen) (po : bool) (ob : obs) (h : held) : bool :=
+  match (if par then par_all v sc else Some (seq_run v sc)) with
+  | Some (o, d) => obs_eqb (model_obs sc o) ob && held_eqb (held_of_p po sc d) h
+  | None => false
+  end.
+
+(* the checker of c09_case_held on a concrete path.  `sc` carries everything but the path (its `pre` is ignored).
+   Flags 0..10 as in c09_case_held, where "the model" is the pipeline under either reading of the path and the
+   statement is judged under the reading that is kinder to the observation; flag 11: nothing outside the cache
+   path (the directory it lies in, what a link points to when the link was not followed) was modified;
+   flag 12: a path left untouched opens exactly if its listing says so (consistency of the observation). *)
+Definition judged (s1 s2 : scen) (ob : obs) (untouched opens : bool) (h : held) : scen :=
+  if spec_ok s2 ob untouched opens && cl_open_exact ob h then s2 else s1.
+Definition c09_path_low (par : bool) (s1 s2 : scen) (po : bool) (ob : obs) (untouched opens : bool) (h : held) : nat :=
+  let ag v := agree_p v par s1 po ob untouched opens || agree_p v par s2 po ob untouched opens in
+  let agh v := agree_held_p v par s1 po ob h || agree_held_p v par s2 po ob h in
+  let sj := judged s1 s2 ob untouched opens h in
+  code [ ag v_cur || ag v_fix;
+         spec_ok sj ob untouched opens;
+         cl_no_hang ob;
+         cl_return_exact sj ob;
+         cl_stays sj untouched;
+         cl_not_openable sj ob untouched opens;
+         ag v_cur; ag v_fix;
+         agh v_cur || agh v_fix;
+         cl_open_exact ob h;
+         Bool.eqb opens (negb (held_eqb h HClosed)) && implb (held_eqb h HPre) untouched ].
+Definition c09_case_path (par : bool) (sc : scen) (p : fspath) (ob : obs) (untouched opens : bool) (h : held)
+                         (around : bool) : nat :=
+  let r1 := code_reading guard_marker p (overwrite sc) in
+  let r2 := follow_reading guard_marker p (overwrite sc) in
+  c09_path_low par (with_reading sc r1) (with_reading sc r2) (r_opens r1) ob untouched opens h
+  + 2048 * code [ around; implb untouched (Bool.eqb opens (r_opens r1)) ].
+
+(* a valid catalog of k patches of other data, with further entries next to them *)
+Definition catalog_entries (k : nat) (more : list entry) : list entry := EMarker :: map EPatch (seq 101 k) ++ more.
